@@ -597,6 +597,7 @@ fn item(it: &syn::Item, modpath: &str, cx: &mut Cx, out: &mut Vec<J>) {
                 ("self_ty", s(self_ty)),
                 ("trait", tr.map(s).unwrap_or(J::Null)),
                 ("generics", s(txt(&x.generics))),
+                ("where", s(txt(&x.generics.where_clause))),
                 ("attrs", attrs(&x.attrs)),
                 ("line", line(x.span())),
             ]));
